@@ -2,6 +2,7 @@
 # tools/replaytest.sh [jobs] : replay fidelity: for every own mutant and every seeded change, run its check on a scratch copy,
 # take the first replay file it names and (a) replay it against the changed copy (must reproduce: exit 1),
 # (b) replay it against the unchanged tree (must not: exit 0).  Not registered in MANIFEST.
+# With REPLAY_ONLY=<file of "patch check" lines> only those pairs are run.
 J=${1:-4}
 cd "$(dirname "$0")/.."
 one() {
@@ -18,13 +19,13 @@ one() {
   rm -rf "$D"
 }
 export -f one
-{
+if [ -n "$REPLAY_ONLY" ]; then cat "$REPLAY_ONLY"; else {
   for m in mutants/*.patch; do echo "$m $(basename "$m" | cut -d_ -f1 | tr a-z A-Z)"; done
   for d in seeded/*/; do
     for c in $(python3 -c "import json;m=json.load(open('$d/meta.json'));print(' '.join(sorted({k.split()[0] for k in m['detected_by']})))"); do
       echo "${d}patch.diff $c"
     done
   done
-} | xargs -P "$J" -L 1 bash -c 'one "$0" "$1"' | sort > /var/tmp/replaytest.out
+}; fi | xargs -P "$J" -L 1 bash -c 'one "$0" "$1"' | sort > /var/tmp/replaytest.out
 echo "replaytest: $(grep -c "changed=1 unchanged=0" /var/tmp/replaytest.out) reproduce on the changed copy and not on the unchanged tree; others:"
 grep -v "changed=1 unchanged=0" /var/tmp/replaytest.out
